@@ -51,20 +51,38 @@ class Conv:
         self.colmap = colmap
         self.dialect = dialect
 
+    # largest finite IEEE double; a numeric literal above it overflows to +infinity when the engine reads it
+    DBL_MAX = Fraction(2 ** 1024 - 2 ** 971)
+
+    def inf_literal(self, t) -> bool:
+        """is t this dialect's way of writing +infinity?  DuckDB / Spark: the text 'infinity' (cast to a float);
+        SQLite: casting that text gives 0.0, there infinity is an overflowing numeric literal (9e999).  Each form is
+        accepted only on its own dialect."""
+        if _is_inf_string(t):
+            if self.dialect == "sqlite":
+                raise Untranslatable("the text 'infinity' on SQLite (CAST('infinity' AS float8) is 0.0 there)")
+            return True
+        v = _num_literal(t)
+        if v is not None and v > self.DBL_MAX:
+            if self.dialect != "sqlite":
+                raise Untranslatable(f"overflowing numeric literal {t.sql()} outside SQLite")
+            return True
+        return False
+
     def num(self, t) -> str:
         if isinstance(t, E.Paren):
             return self.num(t.this)
+        if self.inf_literal(t):
+            return "NInf"
         v = _num_literal(t)
         if v is not None:
             return f"(NLit {q(v)})"
-        if _is_inf_string(t):
-            return "NInf"
         if isinstance(t, E.Cast):
             to = t.args["to"].sql(dialect="duckdb").upper()
             if to not in ("DOUBLE", "FLOAT8", "DOUBLE PRECISION", "REAL", "FLOAT"):
                 raise Untranslatable(f"cast to {to}")
             inner = t.this
-            if _is_inf_string(inner):
+            if self.inf_literal(inner):
                 return "NInf"
             v = _num_literal(inner)
             if v is None:
